@@ -15,6 +15,19 @@ from vt.explore import Chooser
 DATA_PORT = 2121
 
 
+class _SeqScript(dict):
+    """A script value that is a list is consumed one element per use (the last one stays),
+    so a reply can differ between the first and later uses of the same command."""
+
+    def get(self, key, default=None):
+        v = dict.get(self, key, default)
+        if isinstance(v, list):
+            if len(v) > 1:
+                return v.pop(0)
+            return v[0]
+        return v
+
+
 class FTPPeer(Peer):
     """script keys (all optional):
        welcome, user, pass_, type_, size, pasv, retr_begin, retr_end, mlsd, list_begin,
@@ -23,7 +36,7 @@ class FTPPeer(Peer):
     """
 
     def __init__(self, script):
-        self.s = dict(script)
+        self.s = _SeqScript(script)
         self.lines = []          # every command line received (bytes, without terminator)
         self.raw_writes = []     # every client write on the control connection
         self.ctrl = None
@@ -78,8 +91,9 @@ class FTPPeer(Peer):
             self.reply(conn, s.get('pasv', '227 Entering Passive Mode (10,0,0,1,%d,%d)\r\n'
                                    % (DATA_PORT >> 8, DATA_PORT & 255)))
         elif verb == 'RETR':
-            self.reply(conn, s.get('retr_begin', '150 opening\r\n'))
-            if s.get('retr_begin', '150').startswith(('150', '125')):
+            r = s.get('retr_begin', '150 opening\r\n')
+            self.reply(conn, r)
+            if r.startswith(('150', '125')):
                 self.pending_data = s.get('data', 'file-content').encode('latin-1')
                 self._maybe_start()
         elif verb == 'MLSD':
